@@ -220,6 +220,25 @@ WANF(w) == IF w.tok # None THEN [w EXCEPT !.ps = <<>>]
 WARoundTrips(w) == IF w.tok # None THEN w.ps = <<>>
                    ELSE w.ps = <<>> \/ \E i \in 1..Len(w.ps) : w.ps[i].v # None
 
+\* ------------------------------------------------------------------ aliasing
+\* Aliasing steps: the value handed to a mutator / setter is (or shares structure with) what the view itself hands
+\* out.  The documented model is by value: the result is what the same call gives with an equal, unrelated value.
+SelfOps == {"update_self", "ior_self", "item_self", "setitem_self", "set_self", "attr_self", "type_self", "token_self",
+            "cc_self", "csp_self", "alias_params", "params_ior", "ior"}
+AliasApply(k, op, a, v) ==
+  CASE op \in {"update_self", "ior_self", "attr_self", "type_self", "token_self"} -> R(v, "")
+    [] op = "item_self" /\ k \in {"cc", "csp", "mtp"} -> IF DHas(v, a.x) THEN R(v, "") ELSE R(v, "KeyError")
+    [] op = "setitem_self" /\ k = "set" -> LET i == PyIdx(a.n, Len(v)) IN IF i >= 1 /\ i <= Len(v) THEN R(v, "") ELSE R(v, "IndexError")
+    [] op = "ior" /\ k = "set" -> R(SetUpdate(v, a.xs), "")
+    [] op = "ior" /\ k \in {"cc", "csp", "mtp"} -> R(DUpdate(v, a.ps), "")
+    [] op = "set_self" /\ k = "cr" -> IF CRValid(v.st, v.sp, v.ln) THEN R(v, "") ELSE R(v, "AssertionError")
+    [] op = "cc_self" /\ k = "cc" -> IF ~CCKnown(a.tag) THEN R(v, "ood")
+                                     ELSE LET tv == CCRead(a.tag, v) IN IF tv.tg = "any" THEN R(v, "ood") ELSE CCSet(a.tag, tv, v)
+    [] op = "csp_self" /\ k = "csp" -> R(v, "")
+    [] op = "alias_params" /\ k = "wa" -> R([v EXCEPT !.ps = IF a.tag = "mut" THEN DPut(v.ps, a.x, a.y) ELSE v.ps], "")
+    [] op = "params_ior" /\ k = "wa" -> R([v EXCEPT !.ps = DUpdate(v.ps, a.ps)], "")
+    [] OTHER -> R(v, "ood")
+
 \* ------------------------------------------------------------------ per kind dispatch
 SetKinds == {"set"}
 Empty(k, v) == CASE k = "set" -> v = <<>> [] k \in {"cc", "csp"} -> v = <<>> [] k = "cr" -> v.un = None [] OTHER -> FALSE
